@@ -187,7 +187,7 @@ def run(ctx):
     c2_ = engine.Ctx("C06", "quick", facts, 0)
     try:
         rules_C01.run(c2_)
-        n_ = engine.take_over(ctx, c2_.obs, lambda o: o.rule == "C01.2" and "flush" in o.key, "C06.8", "a response that was printed reaches the wire when the answering call returns: ")
+        n_ = engine.take_over(ctx, c2_.obs, lambda o: (o.rule == "C01.2" and "flush" in o.key) or o.rule == "C01.8", "C06.8", "a response that was printed reaches the wire when the answering call returns: ")
         ctx.floor("C06.8 obligations on the writer's flush", n_, 1)
     except CheckerError as e:
         ctx.ob("C06.8", "writer-flush", "the turn-taking writer could be evaluated", False, "sequential.rs", str(e))
